@@ -17,7 +17,7 @@ def _elem(shape, i, kind):
     if shape == "s":
         return 200 + i
     if shape == "z":
-        return [0, None, "", 0.0, []][(i - 1) % 5] if kind not in ("set", "frozenset") else [0, None, "", frozenset(), b""][(i - 1) % 5]      # distinct, hashable
+        return [None, 0, "", 0.0, []][(i - 1) % 5] if kind not in ("set", "frozenset") else [None, 0, "", frozenset(), b""][(i - 1) % 5]      # distinct, hashable
     if shape == "e":
         return ()
     if shape == "p":
@@ -93,6 +93,19 @@ def _cls(kind, n):
         args = "".join(f", {f}" for f in fields)
         init = "".join(f"        self.{f} = {f}\n" for f in fields) or "        pass\n"
         src = (f"import typing\nclass {name}_base:\n{bbody}class {name}({name}_base):\n{cbody}    def __init__(self{args}):\n{init}")
+    elif kind == "plaingrand":
+        # a diamond on top (one member in the shared root when there are three or more), then a chain: the members are declared by
+        # the root, the two arms, and the class itself (the last one)
+        # (typing.get_type_hints walks the MRO backwards: root, second arm, first arm, the class -- the members are dealt out
+        # in that order so that the declared order is f1..fn)
+        head, last = fields[:-1], fields[-1:]
+        parts = [head[0:1], head[2:3], head[1:2], head[3:] + last]       # root, arm a, arm b, the class itself
+        decl = lambda fs: "".join(f"    {f}: typing.Any\n" for f in fs) or "    pass\n"
+        args = "".join(f", {f}" for f in fields)
+        init = "".join(f"        self.{f} = {f}\n" for f in fields) or "        pass\n"
+        src = (f"import typing\nclass {name}_root:\n{decl(parts[0])}class {name}_a({name}_root):\n{decl(parts[1])}"
+               f"class {name}_b({name}_root):\n{decl(parts[2])}class {name}_mid({name}_a, {name}_b):\n    pass\n"
+               f"class {name}({name}_mid):\n{decl(parts[3])}    def __init__(self{args}):\n{init}")
     elif kind == "varsonly":
         src = f"class {name}:\n    pass\n"
     elif kind == "nt":
@@ -135,7 +148,7 @@ def materialise(kind, elems):
         return {"dict": lambda: d, "odict": lambda: collections.OrderedDict(d),
                 "mproxy": lambda: types.MappingProxyType(d), "cmap": lambda: _cls("cmap", 0)(d),
                 "cmapfalsy": lambda: _cls("cmapfalsy", 0)(d), "dictget": lambda: _cls("dictget", 0)(d)}[kind](), es
-    if kind in ("dc", "dcslots", "plain", "nt", "dcchild", "dcslotschild", "plainchild", "dcfalsy", "ntfalsy", "plaindesc"):
+    if kind in ("dc", "dcslots", "plain", "nt", "dcchild", "dcslotschild", "plainchild", "plaingrand", "dcfalsy", "ntfalsy", "plaindesc"):
         return _cls(kind, n)(*es), es
     if kind in ("slotsonly", "varsonly", "slotsonlychild", "slotsonlygrand"):
         o = _cls(kind, n)()
